@@ -172,6 +172,20 @@ def gen(nmax, kmax, cmax, nested, three_cuts, pipes, heavy):
       want = list(range(ds.start, ds.end))
       got, _ = _resume_chain(ds.iterate(), [c1, c2], None)
       return got == want"""))
+  # ---- restore, then re-shard the restored source, checkpoint a shard iterator and restore again ----------------
+  A(F('ob_seq_restore_then_shard', 'n: int, c0: int, k: int, i: int, c1: int', f'0 <= n <= {nmax} and 0 <= c0 <= {cmax} and 1 <= k <= {min(kmax, 3)} and 0 <= i < k and 0 <= c1 <= {cmax}', """
+      root = io.SequenceDataSource(Seq(n))
+      it = root.iterate()
+      head = _take(it, c0)
+      remaining = root.from_state(it.state)            # a data source holding exactly what was not delivered yet
+      shard = remaining.shard(i, k)
+      want = list(range(shard.start, shard.end))
+      it2 = shard.iterate()
+      before = _take(it2, c1)
+      st = it2.state
+      after_root = list(root.from_state(st))
+      after_it = list(root.iterate().from_state(st))
+      return head == list(range(min(c0, n))) and list(shard) == want and before + after_root == want and before + after_it == want"""))
   # ---- DataIterator over a ShardedIterable -------------------------------------
   A(F('ob_data_2cut', 'n: int, k: int, i: int, c1: int, c2: int', nk + ' and ' + cc, """
       src = io.ShardedIterable(list(range(n))).shard(i, k)
@@ -294,7 +308,7 @@ def run(tier):
               transform._ChainedRunnerIterator.state, transform._ChainedRunnerIterator.from_state)
   if tier == 'quick':
     p = dict(nmax=5, kmax=2, cmax=3, nested=[2], three_cuts=False, pipes=[(3, 1, 2), (4, 2, 2)], heavy=False)
-    timeout = 180
+    timeout = 360
   else:
     p = dict(nmax=8, kmax=4, cmax=4, nested=[2, 3], three_cuts=True, pipes=[(3, 1, 3), (4, 2, 2), (5, 1, 5), (7, 3, 3), (2, 3, 2)], heavy=True)
     timeout = 1200
